@@ -5,7 +5,7 @@ from . import register
 
 register(PropSpec(
     "C14",
-    engines=[EngineSpec("exec", gen_exec.gen_fees, mon_exec.mon_c14, mon_exec.tags_c14, quick_n=250, thorough_n=6000)],
+    engines=[EngineSpec("exec", gen_exec.gen_fees, mon_exec.mon_c14, mon_exec.tags_c14, quick_n=250, thorough_n=6000, mask=mon_exec.mask_unmodelled)],
     rule="exec engine: transfers with amounts 0/1/exact balance/balance+1/huge/non-numeric/negative, self-transfers, transfers to admin and "
          "contract addresses, gas prices that put the fee below/at/above the balance, mixed with failing IBTP/BVM txs; all balances observed after "
          "every block; non-trivial = a transfer outcome or fee-failure tag; distinct = distinct op list + tag set",
